@@ -6,8 +6,9 @@ git checkout -q -- . ; git clean -fdq -e target
 git apply "$SD/patch.diff" || { echo "APPLY FAIL"; exit 1; }
 echo "-- baseline with patch:"; /verif/tools/baseline.sh "$WT" | tail -2
 if [ -d "$SD/demo" ]; then
-  echo "-- demo with patch (expect failure):"; ( cd "$SD/demo" && cargo test --offline 2>&1 | grep -E "^test result|error\[|panicked" | head -5 )
+  rundemo() { if [ -f "$SD/demo/src/main.rs" ]; then ( cd "$SD/demo" && cargo run -q --offline >/tmp/demo.out 2>&1; echo "cargo run exit=$?"; tail -3 /tmp/demo.out ); else ( cd "$SD/demo" && cargo test --offline 2>&1 | grep -E "^test result|error\[|panicked" | grep -v "0 passed; 0 failed" | head -5 ); fi; }
+  echo "-- demo with patch (expect failure):"; rundemo
   git checkout -q -- .
-  echo "-- demo without patch (expect pass):"; ( cd "$SD/demo" && cargo test --offline 2>&1 | grep -E "^test result|error\[" | head -5 )
+  echo "-- demo without patch (expect pass):"; rundemo
 fi
 git checkout -q -- .
